@@ -92,6 +92,7 @@ let parse_event (cfgs : config array) (tok : string) : event =
          | _ -> failwith tok in
        EServe (str_of_hex a, List.map ent (split ',' t))
      | _ -> failwith tok)
+  | "CN" -> ECensus (nat_tail tok 2)
   | "QQ" -> EQuiesce
   | _ -> failwith ("event " ^ tok)
 
@@ -155,6 +156,9 @@ let () =
          end else if crashed then begin
            incr mism;
            Printf.printf "MISMATCH crash-unpredicted %s kind=%s where=%s class=%s\n" id kind where cls
+         end else if observed = "handler-panic" then begin
+           incr mism;
+           Printf.printf "MISMATCH handler-panic %s kind=%s where=%s class=%s\n" id kind where cls
          end else if observed = "hang" || observed = "none" then begin
            incr mism;
            Printf.printf "MISMATCH %s %s kind=%s where=%s\n" observed id kind where
@@ -167,11 +171,11 @@ let () =
          let tr = List.map (parse_event cfgs) toks in
          h_events := !h_events + List.length tr;
          let mux = fun _ -> true in
-         let (sts, complete) = http_accept validated_now mux fuel c0 tr in
+         let (sts, complete) = http_accept stop_locked_now validated_now mux fuel c0 tr in
          h_states := !h_states + List.length sts;
          if sts = [] then begin
            incr mism;
-           let d = int_of_nat (http_depth validated_now mux fuel c0 tr) in
+           let d = int_of_nat (http_depth stop_locked_now validated_now mux fuel c0 tr) in
            let next = try List.nth toks d with _ -> "?" in
            Printf.printf "MISMATCH hist %s depth=%d/%d next=%s\n" id d (List.length toks) next
          end else if not complete then begin
